@@ -6,11 +6,11 @@
 -/
 import Props.C13
 import Props.Family
-import Gen.SchemaFacts
+import Gen.Guards.TextLoop
 namespace PM.Family.C13
 open PM
 open PM.C13
-open PM.Gen PM.Family
+open PM.Gen PM.Family PM.FromDom
 
 /-- `PM.C13.stepAll_total` with its schema guards discharged for the bundled schema family -/
 theorem stepAll_total (S : Schema) (hS : S ∈ familySchemas) (tr : Tr) (steps : List Step)
@@ -20,7 +20,7 @@ theorem stepAll_total (S : Schema) (hS : S ∈ familySchemas) (tr : Tr) (steps :
       a ≤ b ∧ b ≤ fsize tr.doc.kids ∧ alignedAt tr.doc.kids a = true ∧ alignedAt tr.doc.kids b = true) :
     ∃ tr', tr.stepAll S steps = .ok tr' ∧ C01.Valid S tr'.doc ∧ fnorm tr'.doc.kids = true ∧
     (ftoks tr'.doc.kids).map Tok.shape = (ftoks tr.doc.kids).map Tok.shape :=
-  PM.C13.stepAll_total S (family_facts _ hS).TextLoop tr steps hdoc hv hn hc hs
+  PM.C13.stepAll_total S (textLoop_of_B _ (family_textLoop _ hS)) tr steps hdoc hv hn hc hs
 
 /-- `PM.C13.addMark_total` with its schema guards discharged for the bundled schema family -/
 theorem addMark_total (S : Schema) (hS : S ∈ familySchemas) (tr : Tr) (f t : Nat) (m : Mark)
@@ -28,7 +28,7 @@ theorem addMark_total (S : Schema) (hS : S ∈ familySchemas) (tr : Tr) (f t : N
     (hc : pairClosedKids tr.doc.kids = true) (hft : f ≤ t) (ht : t ≤ fsize tr.doc.kids)
     (haf : alignedAt tr.doc.kids f = true) (hat : alignedAt tr.doc.kids t = true) :
     ∃ tr', tr.addMark S f t m = .ok tr' :=
-  PM.C13.addMark_total S (family_facts _ hS).TextLoop tr f t m hdoc hv hn hc hft ht haf hat
+  PM.C13.addMark_total S (textLoop_of_B _ (family_textLoop _ hS)) tr f t m hdoc hv hn hc hft ht haf hat
 
 /-- `PM.C13.removeMark_total` with its schema guards discharged for the bundled schema family -/
 theorem removeMark_total (S : Schema) (hS : S ∈ familySchemas) (tr : Tr) (f t : Nat) (sel : MarkSel)
@@ -36,7 +36,7 @@ theorem removeMark_total (S : Schema) (hS : S ∈ familySchemas) (tr : Tr) (f t 
     (hc : pairClosedKids tr.doc.kids = true) (hft : f ≤ t) (ht : t ≤ fsize tr.doc.kids)
     (haf : alignedAt tr.doc.kids f = true) (hat : alignedAt tr.doc.kids t = true) :
     ∃ tr', tr.removeMark S f t sel = .ok tr' :=
-  PM.C13.removeMark_total S (family_facts _ hS).TextLoop tr f t sel hdoc hv hn hc hft ht haf hat
+  PM.C13.removeMark_total S (textLoop_of_B _ (family_textLoop _ hS)) tr f t sel hdoc hv hn hc hft ht haf hat
 
 /-- `PM.C13.addMark_total_effect` with its schema guards discharged for the bundled schema family -/
 theorem addMark_total_effect (S : Schema) (hS : S ∈ familySchemas) (tr : Tr) (f t : Nat) (m : Mark)
@@ -59,7 +59,7 @@ theorem addMark_total_effect (S : Schema) (hS : S ∈ familySchemas) (tr : Tr) (
     (x ∈ (tokAt new i).marks → x ∈ (tokAt old i).marks) ∧
     (x ∈ (tokAt old i).marks → S.excludes m.ty x.ty = false → x ∈ (tokAt new i).marks)) ∧
     (¬ (f ≤ i ∧ i < t) → tokAt new i = tokAt old i)) :=
-  PM.C13.addMark_total_effect S (family_facts _ hS).TextLoop tr f t m hdoc hv hn hc hft ht haf hat
+  PM.C13.addMark_total_effect S (textLoop_of_B _ (family_textLoop _ hS)) tr f t m hdoc hv hn hc hft ht haf hat
 
 /-- `PM.C13.removeMark_total_effect` with its schema guards discharged for the bundled schema family -/
 theorem removeMark_total_effect (S : Schema) (hS : S ∈ familySchemas) (tr : Tr) (f t : Nat) (sel : MarkSel)
@@ -76,6 +76,7 @@ theorem removeMark_total_effect (S : Schema) (hS : S ∈ familySchemas) (tr : Tr
     ((f ≤ i ∧ i < t ∧ isInlineTok S (tokAt old i) = true) →
     (tokAt new i).marks = (tokAt old i).marks.filter (fun x => !sel.matches x)) ∧
     (¬ (f ≤ i ∧ i < t ∧ isInlineTok S (tokAt old i) = true) → tokAt new i = tokAt old i)) :=
-  PM.C13.removeMark_total_effect S (family_facts _ hS).TextLoop tr f t sel hdoc hv hn hc hft ht haf hat
+  PM.C13.removeMark_total_effect S (textLoop_of_B _ (family_textLoop _ hS)) tr f t sel hdoc hv hn hc hft ht haf
+    hat
 
 end PM.Family.C13
